@@ -26,11 +26,23 @@ use std::time::Instant;
 pub struct Choices<'a> {
     data: &'a [u8],
     pos: usize,
+    /// one-field-at-a-time mode: every scalar drawn through int()/bytes() is zero except the
+    /// `sparse`-th one, which is a distinct-byte pattern (the bytes consumed, hence the shape of
+    /// the decoded case, are the same as in normal mode)
+    sparse: Option<usize>,
+    scalars: usize,
 }
 
 impl<'a> Choices<'a> {
     pub fn new(data: &'a [u8]) -> Self {
-        Choices { data, pos: 0 }
+        Choices { data, pos: 0, sparse: None, scalars: 0 }
+    }
+    pub fn new_sparse(data: &'a [u8], target: usize) -> Self {
+        Choices { data, pos: 0, sparse: Some(target), scalars: 0 }
+    }
+    /// number of scalar draws so far
+    pub fn scalars(&self) -> usize {
+        self.scalars
     }
     pub fn exhausted(&self) -> bool {
         self.pos >= self.data.len()
@@ -82,6 +94,22 @@ impl<'a> Choices<'a> {
         v
     }
     pub fn bytes<const N: usize>(&mut self) -> [u8; N] {
+        let v = self.bytes_inner::<N>();
+        let idx = self.scalars;
+        self.scalars += 1;
+        match self.sparse {
+            None => v,
+            Some(t) if t == idx => {
+                let mut out = [0u8; N];
+                for (i, o) in out.iter_mut().enumerate() {
+                    *o = 0xa1 + i as u8;
+                }
+                out
+            }
+            Some(_) => [0u8; N],
+        }
+    }
+    fn bytes_inner<const N: usize>(&mut self) -> [u8; N] {
         let mut out = [0u8; N];
         match self.below(4) {
             0 => {}
@@ -108,6 +136,17 @@ impl<'a> Choices<'a> {
     /// biased integer of `bits` width: zero/one/small, width boundaries,
     /// single bits, byte fills, distinct-byte patterns, random
     pub fn int(&mut self, bits: u32) -> u64 {
+        let v = self.int_inner(bits);
+        let idx = self.scalars;
+        self.scalars += 1;
+        let mask = if bits >= 64 { u64::MAX } else { (1u64 << bits) - 1 };
+        match self.sparse {
+            None => v,
+            Some(t) if t == idx => 0x0807_0605_0403_0201 & mask,
+            Some(_) => 0,
+        }
+    }
+    fn int_inner(&mut self, bits: u32) -> u64 {
         let mask = if bits >= 64 { u64::MAX } else { (1u64 << bits) - 1 };
         let v = match self.below(12) {
             0 => 0,
